@@ -437,7 +437,9 @@ _collection_resolver = AbstractTypeResolver("""),
     dict(id="c19-predicate-reads-len", fires={"C19": "C19.a"},
          edits=[(DT + "synced_dict.py", '"MAPPING": lambda obj: isinstance(obj, Mapping),', '"MAPPING": lambda obj: isinstance(obj, Mapping) and len(obj) >= 0,')]),
     dict(id="c19-blocklist-exact-again", fires={"C19": "C19.a"},
-         edits=[("utils.py", "if not issubclass(obj_type, tuple(self.cache_blocklist)):", "if obj_type not in self.cache_blocklist:")]),
+         edits=[("utils.py", """and not issubclass(
+                obj_type, tuple(self.cache_blocklist)
+            ):""", """and obj_type not in self.cache_blocklist:""")]),
     dict(id="c14-get-check-then-read", fires={"C14": "C14.e"},
          edits=[(DT + "synced_dict.py", """        self._load()
         return self._data.get(key, default)""", """        if key in self:
@@ -445,6 +447,10 @@ _collection_resolver = AbstractTypeResolver("""),
         return default""")]),
     dict(id="c14-index-one-load-per-element", fires={"C14": "C14.e"},
          edits=[(DT + "synced_list.py", """    def index(self, value, start=0, stop=None):  # noqa: D102""", """    def _index_unused(self, value, start=0, stop=None):  # noqa: D102""")]),
+    dict(id="c19-memoizes-lying-class", fires={"C19": "C19.e"},
+         edits=[("utils.py", """            if getattr(obj, "__class__", obj_type) is obj_type and not issubclass(
+                obj_type, tuple(self.cache_blocklist)
+            ):""", """            if not issubclass(obj_type, tuple(self.cache_blocklist)):""")]),
     dict(id="c19-memo-keyed-by-id", fires={"C19": "C19.b"},
          edits=[("utils.py", "        obj_type = type(obj)\n", "        obj_type = id(obj)\n")]),
 ]
